@@ -12,7 +12,13 @@ joint minimal sufficient statistic). Props/C16.lean has `K ≤ H`, `M ≤ H` and
   number `n ≥ 2` of pairwise disjoint groups and any conditioning set;
 * `F ≤ M` (two groups): the minimal sufficient statistic of `X` about `Y`, and the pair of the
   two minimal sufficient statistics, are functions of the outcome that render `X` and `Y`
-  conditionally independent, hence `B ≤ M` (and `M ≤ H(X ∪ Y)`).
+  conditionally independent, hence `B ≤ M` (and `M ≤ H(X ∪ Y)`). The pair is built either as
+  `insert_joint_mss` does (second statistic computed on the table extended by the first:
+  `mss_joint_renders_independent`, `b_le_m`) or with both statistics computed on the original
+  table and appended at once (`mss_joint_one_shot`); both are instances of
+  `mss_pair_renders_independent` / `b_le_pair_entropy` (second label: any function of `Y`).
+  `F` itself is an optimisation that the model does not define, so `F ≤ M` is stated as
+  feasibility of `W` plus `B ≤ H(W)`.
 
 The first part is stated for an arbitrary entropy function `H : VSet → R` with `Submod H`
 (`I(X:Y|Z) ≥ 0`), `Hc H X Z = H(X ∪ Z) − H(Z)`; the table-level statements are for
@@ -287,18 +293,19 @@ theorem mss_renders_independent (code : Nat → σ) (hcode : Function.Injective 
   rw [e8] at hmi ⊢
   linarith
 
-/-- **The pair of minimal sufficient statistics renders `X` and `Y` conditionally independent and
-is a function of the outcome** (`mss_joint_renders_independent`). As `insert_joint_mss` does,
-append the mss label of `X` about `Y` (variable `n`, table `t₁`), then the mss label of `Y` about
-`X` computed on `t₁` (variable `n+1`, table `t₂`); `W = {n, n+1}` is the joint statistic whose
-entropy is `M`. Then in `t₂`: `H(X | Y ∪ W) = H(X | W)`, `H(Y | X ∪ W) = H(Y | W)` (so `W` is
-feasible for the minimisation defining `F`), and `H(W | X ∪ Y) = 0`. -/
-theorem mss_joint_renders_independent (code : Nat → σ) (hcode : Function.Injective code)
+/-- **The mss of `X` about `Y` paired with any function of `Y` renders `X` and `Y` conditionally
+independent** (`mss_pair_renders_independent`): append the mss label of `X` about `Y` (variable
+`n`, table `t₁`), then any label `ℓ₂` that is a function of the `Y`-values on the stored outcomes
+of `t₁` (variable `n+1`, table `t₂`), and let `W = {n, n+1}`. Then in `t₂`:
+`H(X | Y ∪ W) = H(X | W)`, `H(Y | X ∪ W) = H(Y | W)`, and `H(W | X ∪ Y) = 0` (`W` is a function of
+the outcome). The two instances used by dit are below. -/
+theorem mss_pair_renders_independent (code : Nat → σ) (hcode : Function.Injective code)
     (t : Tab (List σ) ℝ) (hnn : ∀ r ∈ t, 0 ≤ r.2) (n : Nat) (hn : ∀ k ∈ keys t, k.length = n)
     (X Y : List Nat) (hX : ∀ i ∈ X, i < n) (hY : ∀ i ∈ Y, i < n)
-    (t₁ t₂ : Tab (List σ) ℝ)
+    (ℓ₂ : List σ → σ) (t₁ t₂ : Tab (List σ) ℝ)
     (h₁ : t₁ = insertRvf (fun o => [code (labelOf (mssClasses t X Y) o)]) none t)
-    (h₂ : t₂ = insertRvf (fun o => [code (labelOf (mssClasses t₁ Y X) o)]) none t₁) :
+    (hℓ₂ : ∀ k ∈ keys t₁, ∀ k' ∈ keys t₁, project Y k = project Y k' → ℓ₂ k = ℓ₂ k')
+    (h₂ : t₂ = insertRvf (fun o => [ℓ₂ o]) none t₁) :
     Hc (entropyOf (Real.logb 2) t₂) X (vunion Y [n, n + 1])
         = Hc (entropyOf (Real.logb 2) t₂) X [n, n + 1]
     ∧ Hc (entropyOf (Real.logb 2) t₂) Y (vunion X [n, n + 1])
@@ -312,10 +319,8 @@ theorem mss_joint_renders_independent (code : Nat → σ) (hcode : Function.Inje
   have hX1 : ∀ i ∈ X, i < n + 1 := fun i hi => Nat.lt_succ_of_lt (hX i hi)
   have hY1 : ∀ i ∈ Y, i < n + 1 := fun i hi => Nat.lt_succ_of_lt (hY i hi)
   have hN1 : ∀ i ∈ [n], i < n + 1 := by simp
-  have ag := agree_insert (fun o => code (labelOf (mssClasses t₁ Y X) o)) (n + 1) t₁ hn1
-  have hT := Hc_new_of_function (fun o => code (labelOf (mssClasses t₁ Y X) o)) (n + 1) t₁ hn1
-    Y hY1 (fun k hk k' hk' e => by rw [C16.mss_function_of_X t₁ Y X hk hk' e])
-  beta_reduce at ag hT
+  have ag := agree_insert ℓ₂ (n + 1) t₁ hn1
+  have hT := Hc_new_of_function ℓ₂ (n + 1) t₁ hn1 Y hY1 hℓ₂
   rw [← h₂] at ag hT
   have hsub : Submod (entropyOf (Real.logb 2) t₂) := by
     rw [h₂]; exact entropy_Submod _ (insertRvf_nonneg _ _ t₁ hnn1)
@@ -337,8 +342,7 @@ theorem mss_joint_renders_independent (code : Nat → σ) (hcode : Function.Inje
       = Hc (entropyOf (Real.logb 2) t₂) X [n, n + 1] := by
     have a1 : Hc (entropyOf (Real.logb 2) t₂) X (vunion Y (vunion [n] [n + 1]))
         = Hc (entropyOf (Real.logb 2) t₂) X (vunion Y [n, n + 1]) :=
-      Hc_congr _ (by intro x; rw [mem_vunion, mem_vunion, hW])
-        (by intro x; rw [mem_vunion, mem_vunion, hW])
+      Hc_congr _ (by intro x; simp [mem_vunion]) (by intro x; simp [mem_vunion])
     have a2 : Hc (entropyOf (Real.logb 2) t₂) X (vunion [n] [n + 1])
         = Hc (entropyOf (Real.logb 2) t₂) X [n, n + 1] :=
       Hc_congr _ hW (by intro x; rw [hW])
@@ -348,25 +352,22 @@ theorem mss_joint_renders_independent (code : Nat → σ) (hcode : Function.Inje
   rw [← hfu]
   exact Hc_congr _ (fun _ => Iff.rfl) (by intro x; rw [hW])
 
-/-- **`B ≤ M`** (`b_le_m`): for two groups `X`, `Y` of a table with non-negative values, total
-mass 1 and outcomes of length `n`, the dual total correlation `B` of `[X, Y]` (here equal to
-`I(X:Y)` for disjoint groups) is at most the entropy `M` of the joint minimal sufficient statistic
-`W = {n, n+1}` built as in `mss_joint_renders_independent`, and `M ≤ H(X ∪ Y)`. Since
-`F = min {H(W') : W' renders X, Y conditionally independent}` and `W` is such a `W'` with
-`H(W) = M`, this is the link `F ≤ M` (with `B ≤ F` from Props/C16 `b_le_f`). Total mass 1 is used
-for `H(∅) = 0`. -/
-theorem b_le_m (code : Nat → σ) (hcode : Function.Injective code)
+/-- **`B ≤ H(W) ≤ H(X ∪ Y)`** for the pair `W = {n, n+1}` of `mss_pair_renders_independent`
+(`b_le_pair_entropy`): table with non-negative values, total mass 1 (used for `H(∅) = 0`) and
+outcomes of length `n`; `B` is the dual total correlation of `[X, Y]` on the original table. -/
+theorem b_le_pair_entropy (code : Nat → σ) (hcode : Function.Injective code)
     (t : Tab (List σ) ℝ) (hnn : ∀ r ∈ t, 0 ≤ r.2) (hmass : (t.map (·.2)).sum = 1) (n : Nat)
     (hn : ∀ k ∈ keys t, k.length = n)
     (X Y : List Nat) (hX : ∀ i ∈ X, i < n) (hY : ∀ i ∈ Y, i < n)
-    (t₁ t₂ : Tab (List σ) ℝ)
+    (ℓ₂ : List σ → σ) (t₁ t₂ : Tab (List σ) ℝ)
     (h₁ : t₁ = insertRvf (fun o => [code (labelOf (mssClasses t X Y) o)]) none t)
-    (h₂ : t₂ = insertRvf (fun o => [code (labelOf (mssClasses t₁ Y X) o)]) none t₁) :
+    (hℓ₂ : ∀ k ∈ keys t₁, ∀ k' ∈ keys t₁, project Y k = project Y k' → ℓ₂ k = ℓ₂ k')
+    (h₂ : t₂ = insertRvf (fun o => [ℓ₂ o]) none t₁) :
     Comb.eval (Rat.castHom ℝ) (entropyOf (Real.logb 2) t) (dtcC [X, Y] [])
         ≤ entropyOf (Real.logb 2) t₂ [n, n + 1]
     ∧ entropyOf (Real.logb 2) t₂ [n, n + 1] ≤ entropyOf (Real.logb 2) t (vunion X Y) := by
   obtain ⟨c1, _, c3⟩ :=
-    mss_joint_renders_independent code hcode t hnn n hn X Y hX hY t₁ t₂ h₁ h₂
+    mss_pair_renders_independent code hcode t hnn n hn X Y hX hY ℓ₂ t₁ t₂ h₁ hℓ₂ h₂
   have hnn1 : ∀ r ∈ t₁, 0 ≤ r.2 := by rw [h₁]; exact insertRvf_nonneg _ _ t hnn
   have hnn2 : ∀ r ∈ t₂, 0 ≤ r.2 := by rw [h₂]; exact insertRvf_nonneg _ _ t₁ hnn1
   have hmass2 : (t₂.map (·.2)).sum = 1 := by
@@ -375,8 +376,8 @@ theorem b_le_m (code : Nat → σ) (hcode : Function.Injective code)
     rw [h₁]; exact insertRvf_keys_length _ n t hn
   have hsub : Submod (entropyOf (Real.logb 2) t₂) := entropy_Submod t₂ hnn2
   have ag1 := agree_insert (fun o => code (labelOf (mssClasses t X Y) o)) n t hn
-  have ag2 := agree_insert (fun o => code (labelOf (mssClasses t₁ Y X) o)) (n + 1) t₁ hn1
-  beta_reduce at ag1 ag2
+  have ag2 := agree_insert ℓ₂ (n + 1) t₁ hn1
+  beta_reduce at ag1
   rw [← h₁] at ag1
   rw [← h₂] at ag2
   have hg : ∀ g ∈ [X, Y], ∀ i ∈ g, i < n := by
@@ -400,6 +401,81 @@ theorem b_le_m (code : Nat → σ) (hcode : Function.Injective code)
     rw [← entropyOf_vnorm, ← entropyOf_vnorm,
       ag2 (vunion X Y) (fun i hi => Nat.lt_succ_of_lt (hXY i hi)), ag1 (vunion X Y) hXY] at hle
     exact hle
+
+/-- **The joint minimal sufficient statistic renders `X` and `Y` conditionally independent and
+is a function of the outcome** (`mss_joint_renders_independent`). As `insert_joint_mss` does,
+append the mss label of `X` about `Y` (variable `n`, table `t₁`), then the mss label of `Y` about
+`X` computed on `t₁` (variable `n+1`, table `t₂`); `W = {n, n+1}` is the joint statistic whose
+entropy is `M`. Then in `t₂`: `H(X | Y ∪ W) = H(X | W)`, `H(Y | X ∪ W) = H(Y | W)` (so `W` is
+feasible for the minimisation defining `F`), and `H(W | X ∪ Y) = 0`. -/
+theorem mss_joint_renders_independent (code : Nat → σ) (hcode : Function.Injective code)
+    (t : Tab (List σ) ℝ) (hnn : ∀ r ∈ t, 0 ≤ r.2) (n : Nat) (hn : ∀ k ∈ keys t, k.length = n)
+    (X Y : List Nat) (hX : ∀ i ∈ X, i < n) (hY : ∀ i ∈ Y, i < n)
+    (t₁ t₂ : Tab (List σ) ℝ)
+    (h₁ : t₁ = insertRvf (fun o => [code (labelOf (mssClasses t X Y) o)]) none t)
+    (h₂ : t₂ = insertRvf (fun o => [code (labelOf (mssClasses t₁ Y X) o)]) none t₁) :
+    Hc (entropyOf (Real.logb 2) t₂) X (vunion Y [n, n + 1])
+        = Hc (entropyOf (Real.logb 2) t₂) X [n, n + 1]
+    ∧ Hc (entropyOf (Real.logb 2) t₂) Y (vunion X [n, n + 1])
+        = Hc (entropyOf (Real.logb 2) t₂) Y [n, n + 1]
+    ∧ Hc (entropyOf (Real.logb 2) t₂) [n, n + 1] (vunion X Y) = 0 :=
+  mss_pair_renders_independent code hcode t hnn n hn X Y hX hY
+    (fun o => code (labelOf (mssClasses t₁ Y X) o)) t₁ t₂ h₁
+    (fun k hk k' hk' e => by rw [C16.mss_function_of_X t₁ Y X hk hk' e]) h₂
+
+/-- **`B ≤ M`** (`b_le_m`): for two groups `X`, `Y` of a table with non-negative values, total
+mass 1 and outcomes of length `n`, the dual total correlation `B` of `[X, Y]` (equal to `I(X:Y)`
+for disjoint groups) is at most the entropy `M` of the joint minimal sufficient statistic
+`W = {n, n+1}` built as in `mss_joint_renders_independent`, and `M ≤ H(X ∪ Y)`. Since
+`F = min {H(W') : W' renders X, Y conditionally independent}` and `W` is such a `W'` with
+`H(W) = M`, this is the link `F ≤ M` (with `B ≤ F` from Props/C16 `b_le_f`). Total mass 1 is used
+for `H(∅) = 0`. -/
+theorem b_le_m (code : Nat → σ) (hcode : Function.Injective code)
+    (t : Tab (List σ) ℝ) (hnn : ∀ r ∈ t, 0 ≤ r.2) (hmass : (t.map (·.2)).sum = 1) (n : Nat)
+    (hn : ∀ k ∈ keys t, k.length = n)
+    (X Y : List Nat) (hX : ∀ i ∈ X, i < n) (hY : ∀ i ∈ Y, i < n)
+    (t₁ t₂ : Tab (List σ) ℝ)
+    (h₁ : t₁ = insertRvf (fun o => [code (labelOf (mssClasses t X Y) o)]) none t)
+    (h₂ : t₂ = insertRvf (fun o => [code (labelOf (mssClasses t₁ Y X) o)]) none t₁) :
+    Comb.eval (Rat.castHom ℝ) (entropyOf (Real.logb 2) t) (dtcC [X, Y] [])
+        ≤ entropyOf (Real.logb 2) t₂ [n, n + 1]
+    ∧ entropyOf (Real.logb 2) t₂ [n, n + 1] ≤ entropyOf (Real.logb 2) t (vunion X Y) :=
+  b_le_pair_entropy code hcode t hnn hmass n hn X Y hX hY
+    (fun o => code (labelOf (mssClasses t₁ Y X) o)) t₁ t₂ h₁
+    (fun k hk k' hk' e => by rw [C16.mss_function_of_X t₁ Y X hk hk' e]) h₂
+
+/-- **The same with both statistics computed on the original table and appended at once**
+(`mss_joint_one_shot`): `t₂ = insertRvf (fun o => [f(o), g(o)]) none t` with `f` the mss label of
+`X` about `Y` and `g` the mss label of `Y` about `X`, both from `mssClasses t`; `W = {n, n+1}`.
+Then `I(X:Y|W) = 0` both ways, `H(W | X ∪ Y) = 0`, and `B ≤ H(W) ≤ H(X ∪ Y)` (the last two need
+total mass 1). -/
+theorem mss_joint_one_shot (code : Nat → σ) (hcode : Function.Injective code)
+    (t : Tab (List σ) ℝ) (hnn : ∀ r ∈ t, 0 ≤ r.2) (hmass : (t.map (·.2)).sum = 1) (n : Nat)
+    (hn : ∀ k ∈ keys t, k.length = n)
+    (X Y : List Nat) (hX : ∀ i ∈ X, i < n) (hY : ∀ i ∈ Y, i < n) (t₂ : Tab (List σ) ℝ)
+    (h₂ : t₂ = insertRvf (fun o => [code (labelOf (mssClasses t X Y) o),
+      code (labelOf (mssClasses t Y X) o)]) none t) :
+    Hc (entropyOf (Real.logb 2) t₂) X (vunion Y [n, n + 1])
+        = Hc (entropyOf (Real.logb 2) t₂) X [n, n + 1]
+    ∧ Hc (entropyOf (Real.logb 2) t₂) Y (vunion X [n, n + 1])
+        = Hc (entropyOf (Real.logb 2) t₂) Y [n, n + 1]
+    ∧ Hc (entropyOf (Real.logb 2) t₂) [n, n + 1] (vunion X Y) = 0
+    ∧ Comb.eval (Rat.castHom ℝ) (entropyOf (Real.logb 2) t) (dtcC [X, Y] [])
+        ≤ entropyOf (Real.logb 2) t₂ [n, n + 1]
+    ∧ entropyOf (Real.logb 2) t₂ [n, n + 1] ≤ entropyOf (Real.logb 2) t (vunion X Y) := by
+  have e := insertRvf_two_eq (fun o => code (labelOf (mssClasses t X Y) o))
+    (fun o => code (labelOf (mssClasses t Y X) o)) n t hn
+  beta_reduce at e
+  rw [e] at h₂
+  have hfun := take_function (fun o => code (labelOf (mssClasses t X Y) o))
+    (fun o => code (labelOf (mssClasses t Y X) o)) n t hn Y hY
+    (fun k hk k' hk' e => by rw [C16.mss_function_of_X t Y X hk hk' e])
+  beta_reduce at hfun
+  obtain ⟨c1, c2, c3⟩ := mss_pair_renders_independent code hcode t hnn n hn X Y hX hY
+    (fun o' => code (labelOf (mssClasses t Y X) (o'.take n))) _ t₂ rfl hfun h₂
+  obtain ⟨c4, c5⟩ := b_le_pair_entropy code hcode t hnn hmass n hn X Y hX hY
+    (fun o' => code (labelOf (mssClasses t Y X) (o'.take n))) _ t₂ rfl hfun h₂
+  exact ⟨c1, c2, c3, c4, c5⟩
 
 /-- The single statistic already bounds `B`: `B ≤ H(f(X))` (`b_le_mss_entropy`), for the table
 `t₁` with the mss label of `X` about `Y` appended as variable `n`. -/
@@ -448,6 +524,16 @@ example : insertRvf (fun o => [labelOf (mssClasses
         ([1, 0], 1 / 4), ([1, 1], 1 / 4), ([2, 0], 1 / 4)] : Tab (List Nat) Rat) [0] [1]) o]) none
         ([([0, 0], 1 / 8), ([0, 1], 1 / 8), ([1, 0], 1 / 4), ([1, 1], 1 / 4), ([2, 0], 1 / 4)] :
           Tab (List Nat) Rat))
+    = [([0, 0, 0, 0], 1 / 8), ([0, 1, 0, 1], 1 / 8), ([1, 0, 0, 0], 1 / 4),
+        ([1, 1, 0, 1], 1 / 4), ([2, 0, 1, 0], 1 / 4)] := by decide +kernel
+
+/-- The one-shot construction of `mss_joint_one_shot` on the same table. -/
+example : insertRvf (fun o => [labelOf (mssClasses ([([0, 0], 1 / 8), ([0, 1], 1 / 8),
+        ([1, 0], 1 / 4), ([1, 1], 1 / 4), ([2, 0], 1 / 4)] : Tab (List Nat) Rat) [0] [1]) o,
+      labelOf (mssClasses ([([0, 0], 1 / 8), ([0, 1], 1 / 8),
+        ([1, 0], 1 / 4), ([1, 1], 1 / 4), ([2, 0], 1 / 4)] : Tab (List Nat) Rat) [1] [0]) o]) none
+      ([([0, 0], 1 / 8), ([0, 1], 1 / 8), ([1, 0], 1 / 4), ([1, 1], 1 / 4), ([2, 0], 1 / 4)] :
+        Tab (List Nat) Rat)
     = [([0, 0, 0, 0], 1 / 8), ([0, 1, 0, 1], 1 / 8), ([1, 0, 0, 0], 1 / 4),
         ([1, 1, 0, 1], 1 / 4), ([2, 0, 1, 0], 1 / 4)] := by decide +kernel
 
